@@ -604,17 +604,21 @@ def Y4(ctx):
         ctx.ok("Y4", "fence[Relaxed]", "diverges", [prog.fns[fn_key].loc()])
     # a SeqCst fence first acquires/releases, then joins the global SC clock (what the fence acquires must be published)
     fs = prog.ident("rt::atomic::fence_seqcst")
-    if fs is None:
-        ctx.missing("Y4", "rt::atomic::fence_seqcst")
-    else:
+    if fs is not None and not prog.fns["rt::atomic::fence_seqcst"].j.get("stub"):
         ea2 = EventAnalysis(prog, _table_matcher).solve([fs])
-        m2 = ea2.must_of(fs)
-        if m2 is not TOP and {"fence_acq", "fence_rel", "seq_cst_fence"} <= set(m2) and not ea2.must_before(fs, "fence_acq", "seq_cst_fence") \
-                and not ea2.must_before(fs, "fence_rel", "seq_cst_fence"):
-            ctx.ok("Y4", "fence_seqcst:order", "acquire + release parts precede the join with the global SC clock", [prog.fns["rt::atomic::fence_seqcst"].loc()])
-        else:
-            ctx.bad("Y4", "rt::atomic::fence_seqcst", "a SeqCst fence must acquire (and release) before it joins the global SC clock: otherwise what the "
-                    "fence acquires never reaches later SC fences of other threads", prog.fns["rt::atomic::fence_seqcst"].loc(), detail="order")
+        where = "rt::atomic::fence_seqcst"
+    else:
+        # the SeqCst arm written in place (or the helper flattened): the fence closure restricted to ordering == SeqCst
+        fs = root
+        ea2 = EventAnalysis(prog, _table_matcher, assume=assume_discr(ups[0], 4)).solve([fs])
+        where = fn_key
+    m2 = ea2.must_of(fs)
+    if m2 is not TOP and {"fence_acq", "fence_rel", "seq_cst_fence"} <= set(m2) and not ea2.must_before(fs, "fence_acq", "seq_cst_fence") \
+            and not ea2.must_before(fs, "fence_rel", "seq_cst_fence"):
+        ctx.ok("Y4", "fence_seqcst:order", "acquire + release parts precede the join with the global SC clock", [prog.fns[where].loc()])
+    else:
+        ctx.bad("Y4", "rt::atomic::fence_seqcst", "a SeqCst fence must acquire (and release) before it joins the global SC clock: otherwise what the "
+                "fence acquires never reaches later SC fences of other threads", prog.fns[where].loc(), detail="order")
     # seq_cst_fence joins in both directions
     fn = need_fn(ctx, "Y4", "rt::thread::Set::seq_cst_fence")
     if fn is not None:
